@@ -1549,8 +1549,10 @@ class Exec:
                 return Bound(v, obj)
             return v
         if isinstance(obj, Cls):
-            if name == "__name__":
+            if name in ("__name__", "__qualname__"):
                 return obj.name
+            if name == "__module__":
+                return getattr(obj.module, "name", None) or str(obj.module or "harness")
             v, _ = obj.lookup(name)
             if v is None:
                 raise PyRaise(make_exc(self.interp, "AttributeError", f"class {obj.name} has no attribute {name}"))
